@@ -23,6 +23,8 @@ type Obl struct {
 	Ord     int
 	InlineOf string
 	Seq      int
+	Clause   *Clause // the contract clause behind a post/atreturn obligation (for the replay oracle)
+	FnSSA    *ssa.Function
 }
 
 type Query struct {
@@ -84,6 +86,7 @@ type Ctx struct {
 	usedContracts map[string]bool
 	allocSite map[ssa.Instruction]int
 	seenSentinels []string
+	curClause *Clause
 }
 
 func (c *Ctx) declare(line string) {
@@ -252,7 +255,7 @@ func (c *Ctx) oblige(st *State, fr *Frame, kind, detail, label string, pos token
 	id := strings.Join([]string{kind, detail, label, fmt.Sprint(int(pos)), inl, src}, "|")
 	o := c.obls[id]
 	if o == nil {
-		o = &Obl{Fn: fnKey, Kind: kind, Detail: detail, Label: label, Pos: pos, Props: props, Src: src, InlineOf: inl, Seq: len(c.oblOrder)}
+		o = &Obl{Fn: fnKey, Kind: kind, Detail: detail, Label: label, Pos: pos, Props: props, Src: src, InlineOf: inl, Seq: len(c.oblOrder), Clause: c.curClause, FnSSA: c.Fn}
 		c.obls[id] = o
 		c.oblOrder = append(c.oblOrder, o)
 	}
